@@ -799,6 +799,12 @@ def run(ctx):
         small = shrink(c, lambda cc: (lambda r: r is not None and r[0] == orc[0])(evaluate(cc)[1]))
         o2, r2 = evaluate(small)
         common.report(ctx, r2[0] if r2 else orc[0], r2[1] if r2 else orc[1], dict(case=small, real=o2))
+    # the second login of a two-login history is the same function of its own dialogue (Px.login has no memory)
+    second = [(c['then'], o['then']) for c, o in zip(cases, outs) if 'then' in o and model_line(c['then'], o['then'])]
+    cases = cases + [c2 for c2, _ in second]
+    outs = outs + [o2 for _, o2 in second]
+    lines = lines + [model_line(c2, o2) for c2, o2 in second]
+    ctx.cov['second_logins_through_model'] = len(second)
     # correspondence
     try:
         mouts = common.run_model(lines)
